@@ -74,6 +74,7 @@ PROPS = {
     "C09": dict(modules=["Rosmar.Properties.C09", "Rosmar.Properties.Sched"], slices=[FEEDS, FEEDSD, MULTI], proj=P(rb=ROW, ev="*", results=False),
                 what="dump feeds (backfill snapshots) from several start CAS values, against the stored rows"),
     "C10": dict(modules=["Rosmar.Properties.C10"], slices=[KVD, CLOCKD, EXPIRYD],
+                closing=["restart hlc=0 mode=reopen", "expstate"],
                 proj=P(rb=ROW, results=True, ops={"restart", "lastcas", "expstate"}),
                 what="on-disk histories with close/reopen in-process (restart) compared with the model; and fault enumeration: a child process "
                      "is SIGKILLed at instrumentation points (txn.begin, cas.afterwrite, txn.precommit, txn.committed, post.before, ...) and a "
